@@ -261,4 +261,22 @@ PROPS = {
         "quick": {"runs": [{"test": "^TestC17$", "shards": 16, "checks": 100, "timeout": 600}]},
         "thorough": {"runs": [{"test": "^TestC17$", "shards": 16, "checks": 2500, "timeout": 3400}]},
     },
+    "C11": {
+        "title": "File views agree and file operations carry the whole file",
+        "level": "exploration",
+        "rule": "rapid state machine against a reference namespace model: random initial tree (files with content, some with a stored resource "
+                "fork, a stored info fork with comment and custom type, or partial .incomplete data; folders to depth 3) under one of 6 "
+                "ignore-pattern sets, then new-folder (fresh or over an existing entry), rename, move, delete, set-comment, make-alias (incl. "
+                "alias chains and dangling aliases) and 'leave a partial upload' through the protocol; names from the Mac-Roman-representable "
+                "set incl. 244/253/254/255-byte names and names containing '.incomplete', '.info_', '.rsrc_', '.bak', 'secret', '@'; after "
+                "every step: every folder's parsed file list == model view (ignore patterns, partial under its final name, folder item counts, "
+                "sizes, fldr typing), up to 3 listed complete entries per folder are addressed by their listed name for get-info and download "
+                "(list size == info size == download size == bytes on disk, list type == info type, comment), and the on-disk tree incl. "
+                ".info_/.rsrc_/.incomplete side files == model; non-trivial = a mutating action on an entry that has side files followed by a "
+                "view check; distinct = hash(history, ignore set)",
+        "assumptions": ["rename/move onto an existing name, rename/move of partial uploads and of aliases, set-comment on folders are excluded (outside the statement); counted in excluded_by_construction",
+                        "a mutating request that changes the tree as requested but gets no reply (names whose side-file names exceed 255 bytes) is tolerated and counted"],
+        "quick": {"runs": [{"test": "^TestC11$", "shards": 16, "checks": 80, "timeout": 600}]},
+        "thorough": {"runs": [{"test": "^TestC11$", "shards": 16, "checks": 2500, "timeout": 3400}]},
+    },
 }
